@@ -29,6 +29,15 @@ func (e *Env) observe(l klevdb.Log, dir, tag, what string) {
 }
 
 // CheckAll is the invariant run after every step on the main handle: only owned oracles can fail.
+// MaybeCheck runs the invariant unless this case observes only every n-th step.
+func (e *Env) MaybeCheck() {
+	if e.Cfg.CheckEvery > 1 && e.Step%e.Cfg.CheckEvery != 0 {
+		e.St.Inc("invariant_skipped_lazy")
+		return
+	}
+	e.CheckAll()
+}
+
 func (e *Env) CheckAll() {
 	t := obsTags{}
 	if e.own("next") {
